@@ -98,4 +98,27 @@ def refPathParams (leaf : LeafTable) (base : String) (tpl : String) (o : Operati
     if faults.isEmpty then .ok (results.filterMap (fun (_, r) => match r with | .ok d => some d | _ => none))
     else .error faults
 
+/-- C04: a declared query / header parameter is malformed in a request iff it is required and
+    absent, scalar and supplied more than once, or some supplied value lies outside the lexical
+    space of its type. Returns the faults (all applicable kinds). -/
+def malformed (leaf : LeafTable) (p : Param) (vs : List String) : List String :=
+  (if p.required && vs.isEmpty then ["required"] else []) ++
+  (if !p.isArray && vs.length > 1 then ["multiple"] else []) ++
+  (if vs.any (fun v => (pvalue leaf p.type v).isNone) then ["lexical"] else [])
+
+/-- the typed value(s) of the supplied text(s); unset for an absent optional parameter -/
+def specValue (leaf : LeafTable) (p : Param) (vs : List String) : String :=
+  if vs.isEmpty then "-"
+  else if p.isArray then "[" ++ ",".intercalate (vs.map (fun v => (pvalue leaf p.type v).getD "?")) ++ "]"
+  else (pvalue leaf p.type (vs.headD "")).getD "?"
+
+def refParams (leaf : LeafTable) (o : Operation) (req : Req) : Except (List String) (List String × List String) :=
+  let qs := o.parameters.filter (·.loc == "query")
+  let hs := o.parameters.filter (·.loc == "header")
+  let faults := (qs.flatMap (fun p => (malformed leaf p (queryValues req p)).map (fun k => "query:" ++ toHex p.name ++ ":" ++ k))) ++
+                (hs.flatMap (fun p => (malformed leaf p (headerValues req p)).map (fun k => "header:" ++ toHex p.name ++ ":" ++ k)))
+  if faults.isEmpty then
+    .ok (qs.map (fun p => specValue leaf p (queryValues req p)), hs.map (fun p => specValue leaf p (headerValues req p)))
+  else .error faults
+
 end Goag.Ref
